@@ -426,6 +426,24 @@ class SpecEval:
             if self.old is None:
                 raise SpecError('fresh() needs old state')
             return SV(z3.And(v.t > self.old.get(key), v.t <= self.heap.get(key)), 'bool')
+        if name == 'eqorcompl':
+            # eqorcompl(b, c): (*bitset.BitSet).EqualOrComplement(b, c) - the same term as the trusted model of the library
+            from .externals import bs_keys
+            b_, c_ = self.ev(args[0]), self.ev(args[1])
+            kb, kl = bs_keys()
+            bits, ln = self.heap.get(kb), self.heap.get(kl)
+            f = w.uf('bs_eqc', z3.ArraySort(z3.IntSort(), z3.BoolSort()), z3.IntSort(), z3.ArraySort(z3.IntSort(), z3.BoolSort()), z3.IntSort(), z3.BoolSort())
+            return SV(z3.And(c_.t != 0, f(bits[b_.t], ln[b_.t], bits[c_.t], ln[c_.t])), 'bool')
+        if name == 'freshiter':
+            # freshiter(x): the object x (current value) did not exist at the head of the current loop iteration
+            if self.head is None:
+                raise SpecError('freshiter() outside a loop iteration (step clause or loop-qualified call clause)')
+            v = self.ev(args[0])
+            hh, _ = self.head
+            if z3.is_expr(v.t) and v.t.sort() == S:
+                return SV(z3.And(S.arr(v.t) > hh.get(('alloc', 'arr')), S.arr(v.t) <= self.heap.get(('alloc', 'arr'))), 'bool')
+            key = self.alloc_key(v.ty)
+            return SV(z3.And(v.t > hh.get(key), v.t <= self.heap.get(key)), 'bool')
         if name == 'fresh_arr':
             v = self.ev(args[0])
             return SV(z3.And(S.arr(v.t) > self.old.get(('alloc', 'arr')), S.arr(v.t) <= self.heap.get(('alloc', 'arr'))), 'bool')
